@@ -394,3 +394,58 @@ def im10(ctx: Ctx):
         ctx.ob(rule, fi.qual, "stores into the shared per-object cache", not multi,
                f"cache key(s) {sorted(multi)} of a live object are stored more than once on one path: a concurrent reader can observe "
                "the provisional value between the two stores", where(fi, fi.node), sample="each key stored once, with its final value")
+
+
+def im11(ctx: Ctx):
+    """A per-object cache starts empty or is pre-filled from values computed for that very object: nothing derived from
+    another object's cache (which may hold its memoised hash and other entries keyed by hand) may flow into it."""
+    model = ctx.model
+    rule = "IM11"
+    ctx.rule(rule, floor=5, what="no object's cache is seeded from another object's cache")
+    for fi in pkg_funcs(model):
+        if fi.module != "_url":
+            continue
+        r = analyze(model, fi)
+        seen = set()
+        for e in r.by_kind("store_attr"):
+            if e.attr != "_cache" or id(e.node) in seen:
+                continue
+            seen.add(id(e.node))
+            ctx.instance(rule)
+            v = e.value
+            foreign = [t for t in walk(v) if t[0] == "attr" and t[2] == "_cache"]
+            root = v
+            while root[0] == "mut":
+                root = root[1]
+            ok = not foreign and root[0] == "dict"
+            ctx.ob(rule, fi.qual, f"{show(e.obj)[:30]}._cache = {show(v)[:60]}", ok,
+                   "a URL's cache is initialised from something other than a fresh dict filled in this function"
+                   + (" - it is derived from another object's cache, so memoised entries (e.g. the hash stored under a "
+                      "hand-written key) leak into an object they were not computed for" if foreign else ""),
+                   where(fi, e.node), sample="fresh dict")
+
+
+def im12(ctx: Ctx):
+    """Memo keys must be compared exactly: an lru_cache keyed on URL objects uses URL.__eq__/__hash__, which identify
+    observably different values (an empty path and '/' under an authority), so a cached result computed for one could be
+    returned for the other. Only str / int / bool / None (and tuples of them) may be parameters of memoised functions."""
+    model = ctx.model
+    rule = "IM12"
+    ctx.rule(rule, floor=8, what="lru_cache keys are exact-equality value types, never URL objects")
+    ok_ann = {"str", "int", "bool", "None", "Union[str,None]", "Union[int,None]", "Union[str, None]", "Union[int, None]"}
+    for q, fi, args in model.lru_functions():
+        ctx.instance(rule)
+        problems = []
+        if fi.cls == "URL":
+            problems.append("a method of URL (keyed on self)")
+        for p in fi.params:
+            if p in ("self", "cls"):
+                continue
+            a = fi.param_annotation(p)
+            txt = unparse(a).replace(" ", "").strip("'\"") if a is not None else None
+            if txt is None or txt not in {x.replace(" ", "") for x in ok_ann}:
+                problems.append(f"parameter {p}: {txt}")
+        ctx.ob(rule, q, "memo key types", not problems,
+               "memoised on a key that is not compared exactly (" + "; ".join(problems) + "): URL equality identifies values whose "
+               "string form differs, unannotated/other types may compare equal while behaving differently - the result then "
+               "depends on which equal key was seen first", where(fi, fi.node), sample="str/int/bool/None parameters only")
